@@ -129,6 +129,29 @@ func (t *Transaction) With(name string, readOnly bool, createFn func() (Cachable
 	 * with common enemies including concurrent read-writes to maps and scrapped
 	 * caches. */
 	// ---------------------------
+	/* Within a transaction, a cache that has been locked for writing stays the
+	 * one to use until the transaction ends, even if it has been removed from
+	 * the manager in the meantime (released or pruned). It holds the
+	 * uncommitted changes of this transaction and we own its lock, whereas
+	 * whatever sits in the manager under the same name now was created by
+	 * someone else and is not locked by us. */
+	t.mu.Lock()
+	ownCache, isOwn := t.writtenCaches[name]
+	t.mu.Unlock()
+	if isOwn && !ownCache.scrapped {
+		if err := f(ownCache.item); err != nil {
+			t.failed.Store(true)
+			ownCache.scrapped = true
+			t.manager.mu.Lock()
+			if t.manager.sharedCaches[name] == ownCache {
+				delete(t.manager.sharedCaches, name)
+			}
+			t.manager.mu.Unlock()
+			return fmt.Errorf("error while executing cache operation: %w", err)
+		}
+		return nil
+	}
+	// ---------------------------
 	// We start with manager lock so others don't try to create the same cache
 	t.manager.mu.Lock()
 	if existingCache, ok := t.manager.sharedCaches[name]; ok {
@@ -153,8 +176,11 @@ func (t *Transaction) With(name string, readOnly bool, createFn func() (Cachable
 			// let other go routines on the same transaction to concurrently
 			// read from it whilst one go routine is writing.
 			t.mu.Lock()
-			_, ok := t.writtenCaches[name]
+			lockedCache, ok := t.writtenCaches[name]
 			t.mu.Unlock()
+			// It has to be this very cache, the name may have been given to
+			// a new cache since we locked ours.
+			ok = ok && lockedCache == existingCache
 			if !ok {
 				/* We are using TryRLock here because we can survive if we don't get
 				* the lock with a fresh cold cache. The idea is, if there is an
@@ -194,7 +220,13 @@ func (t *Transaction) With(name string, readOnly bool, createFn func() (Cachable
 			 * to ensure other readers or writers do not see partial results.
 			 * Within a transaction a writer can write to multiple caches, e.g.
 			 * multiple indices. */
-			if _, ok := t.writtenCaches[name]; !ok {
+			if lockedCache, ok := t.writtenCaches[name]; !ok || lockedCache != existingCache {
+				if ok {
+					// The cache we locked under this name has been scrapped
+					// and replaced in the manager, we let go of the old one.
+					lockedCache.scrapped = true
+					lockedCache.mu.Unlock()
+				}
 				/****************************
 				 * Please do not forget to unlock after the transaction is
 				 * complete.
@@ -303,6 +335,14 @@ func (t *Transaction) Commit(fail bool) {
 	for name, s := range t.writtenCaches {
 		if failed {
 			s.scrapped = true
+			delete(t.manager.sharedCaches, name)
+		} else if current, ok := t.manager.sharedCaches[name]; ok && current != s {
+			/* Our cache was removed from the manager while we were holding it
+			 * (released or pruned) and somebody has created a replacement from
+			 * storage that did not contain our changes yet. Now that we have
+			 * committed, that replacement is stale, the next user has to
+			 * rebuild it from storage. */
+			current.scrapped = true
 			delete(t.manager.sharedCaches, name)
 		}
 		log.Debug().Str("name", name).Bool("failed", failed).Msg("Committing cache")
